@@ -265,3 +265,5 @@ Theorem c07_wrapped_ledger : forall c e script ops rs s,
     filter (nzb e) (fit_ids c e (acked 0 (map plain ops) rs)) /\
   sentA (lg s) = big_ids c e (acked 0 (map plain ops) rs).
 Proof. exact wrapped_ledger. Qed.
+
+(* Note after the second read-only review of these pins (selftest/audit/REVIEW-2-2026-10-02.md): c07_wrapped_ledger is c07_ledger_final through the delegation model (see the note in C06.v).  In c07_emit_shape / c07_emit_flushes_all the operation number n is free: the statements are meant for n = the index of the emit in its history (where (n, m) is not yet in bids s).  c07_flush_result and c07_drop_sends_rest are weaker forms of c07_flush_answer / c07_drop_shape kept for readability. *)
